@@ -130,9 +130,14 @@ def run(ctx: core.Check):
               ("label", "rc1", "rc", 1), ("label", "rc.2", "rc", 2), ("label", "alpha0", "alpha", 0), ("label", "beta.10", "beta", 10),
               ("other", "dev", "", -1), ("other", "rc-1", "", -1), ("other", "99", "", -1), ("other", "RC1", "", -1)]
     n = 120 if ctx.quick else 3000
+    # the corners of the tuple space first: all zero (with and without a tweak line), one step above zero in every field, all 255
+    corners = [(0, 0, 0, 0), (0, 0, 0, 0), (0, 0, 0, 1), (0, 0, 1, 0), (0, 1, 0, 0), (1, 0, 0, 0), (255, 255, 255, 255), (0, 0, 0, 255),
+               (0, 0, 255, 0), (0, 255, 0, 0), (255, 0, 0, 0)]
     for k in range(n):
         M = ctx.rng.choice([0, 1, 2, 3, 9, 100, 127, 255, 1000, 70000])
         m, p, t = (ctx.rng.choice(vals) for _ in range(3))
+        if k < 2 * len(corners):
+            M, m, p, t = corners[k // 2]   # each corner twice: k and k + 1 differ in whether the tweak line is written
         cls, text, label, num = extras[k % len(extras)]
         f = d / f"VERSION{k}"
         lines = [f"VERSION_MAJOR = {M}", f"VERSION_MINOR = {m}", f"PATCHLEVEL = {p}"]
